@@ -413,7 +413,12 @@ ROLE_GT = {
 # family layouts: VCF column order (deliberately not sorted), PED lines (child, father, mother), role of every sample
 LAYOUTS = {
     "trio": dict(samples=["mum", "kid", "dad"], ped=[("kid", "dad", "mum")], roles=dict(dad="father", mum="mother", kid="child")),
-    "quartet": dict(samples=["mum", "sis", "kid", "dad"], ped=[("kid", "dad", "mum"), ("sis", "dad", "mum")], roles=dict(dad="father", mum="mother", kid="child", sis="child2")),
+    # two children of the same parents.  Data chosen so that the REAL solver has to place a recombination in both children
+    # (three father reads 1,1,1 against children that carry 1,1,0 of him; --recombrate 1000 makes two recombinations cheaper
+    # than re-phasing the father), i.e. the recombination list has one row per child at the same position
+    "quartet": dict(samples=["mum", "sis", "kid", "dad"], ped=[("kid", "dad", "mum"), ("sis", "dad", "mum")], roles=dict(dad="father", mum="mother", kid="child", sis="child2"), recombrate=1000,
+                    gt=dict(dad=[(0, 1)] * 3, mum=[(0, 0)] * 3, kid=[(0, 1), (0, 1), (0, 0)], sis=[(0, 1), (0, 1), (0, 0)]),
+                    reads=dict(dad=[[1, 1, 1]] * 3, mum=[[0, 0, 0]], kid=[[1, 1, 0]], sis=[[1, 1, 0]])),
     "two trios": dict(samples=["mum", "pa", "kid", "ch", "dad", "ma"], ped=[("kid", "dad", "mum"), ("ch", "pa", "ma")], roles=dict(dad="father", mum="mother", kid="child", pa="father", ma="mother", ch="child")),
     "trio+single": dict(samples=["solo", "mum", "kid", "dad"], ped=[("kid", "dad", "mum"), ("solo", "0", "0")], roles=dict(dad="father", mum="mother", kid="child", solo="single")),
 }
@@ -436,15 +441,16 @@ class PedScenario:
         self.distrust = bool(shape.get("distrust"))
         self.ped_text = "".join("F%d %s %s %s 0 1\n" % (i, c, f, m) for i, (c, f, m) in enumerate(lay["ped"]))
         self.trios = [t for t in lay["ped"] if t[1] != "0"]
+        self.recombrate = lay.get("recombrate", 1.26)
         # solver-chosen structure: the first child's genotype at the first variant (homozygous -> genetic-haplotyping master block)
-        self.kid_het0 = e.bit("kid_het_at_first_variant")
+        self.kid_het0 = e.bit("kid_het_at_first_variant") if "gt" not in lay else 0
         # with --distrust-genotypes: do the likelihoods of father / mother contradict their called genotype at the first variant?
         self.pl_flip = {s: (e.bit("pl_contradicts_gt_%s" % s) if self.distrust else 0) for s in self.samples if self.roles[s] in ("father", "mother")}
         self.gt, self.pl = {}, {}
         for c in self.chroms:
             for v in range(3):
                 for s in self.samples:
-                    g = ROLE_GT[self.roles[s]][v]
+                    g = lay["gt"][s][v] if "gt" in lay else ROLE_GT[self.roles[s]][v]
                     if v == 0 and self.roles[s] == "child" and self.kid_het0:
                         g = (0, 1)
                     self.gt[c, v, s] = g
@@ -453,12 +459,18 @@ class PedScenario:
                         if v == 0 and self.pl_flip.get(s):
                             best = 0
                         self.pl[c, v, s] = tuple(0 if i == best else 50 for i in range(3))
-        # reads: (name, [(variant index, allele)]) per (chromosome, sample); under distrust no read covers the first variant
+        # reads: (name, [(variant index, allele)]) per (chromosome, sample); on the second chromosome and under distrust no read
+        # covers the first variant (it stays reachable through genetic haplotyping only)
         self.reads = {}
         for ci, c in enumerate(self.chroms):
             for s in self.samples:
-                spans = [(1, 2)] if (self.distrust or ci == 1) else [(0, 1), (1, 2)]
-                self.reads[c, s] = [("%s_%s_r%d" % (c, s, k), [(v, (_nh(s) + k + v) % 2) for v in sp]) for k, sp in enumerate(spans)]
+                if "reads" in lay:
+                    full = [[(v, a) for v, a in enumerate(al)] for al in lay["reads"][s]]
+                else:
+                    full = [[(v, (_nh(s) + k + v) % 2) for v in sp] for k, sp in enumerate([(0, 1), (1, 2)])]
+                if self.distrust or ci == 1:
+                    full = [[(v, a) for v, a in r if v != 0] for r in full]
+                self.reads[c, s] = [("%s_%s_r%d" % (c, s, k), r) for k, r in enumerate(full) if len(r) >= 2]
 
     def key(self):
         return repr((self.shape["fam"], self.shape["nchrom"], self.distrust, self.kid_het0, sorted(self.pl_flip.items())))
@@ -517,6 +529,22 @@ class PedScenario:
                         f.write(a)
         pysam.index(bam)
         return vcf_path, os.path.join(tmp, "ped.txt"), bam
+
+
+def _memo_hook(e):
+    """ORDER_HOOK for the new sub-checks: one solver-chosen permutation per distinct set *content* and run (a process has one
+    hash seed: equal sets built the same way iterate in the same order); sets with different contents get independent
+    permutations (over-approximation of what a hash seed can do)."""
+    memo, cnt = {}, [0]
+
+    def hook(items):
+        key = tuple(repr(x) for x in items)
+        if key not in memo:
+            cnt[0] += 1
+            memo[key] = e.perm("ord%d" % cnt[0], len(items))
+        return [items[i] for i in memo[key]]
+
+    return hook, cnt
 
 
 class _Ctx:
@@ -692,8 +720,11 @@ class SeedPhase(SubCheck):
                    "observed: tests/data/trio.* phased identically under 6 hash seeds that order the family differently) - LLSym query (b) of DESIGN 4/C16 was not built",
                    "ReadSet.sort() is a total order on (first position, name, source id): the merged read set is a function of the set of reads (src/readset.h read_comparator_t; duplicates are rejected by ReadSet.add)"]
     required_cover = ["use-ped-samples: sample list from a set", "two families", "two trios in one family", "recombination event written", "genotype change written", "read list written", "a set was iterated in a solver-chosen order", "two chromosomes"]
-    replay_every = 1  # real results are cached per materialised input, a replay is a dictionary lookup after the first one
+    replay_every = 4  # a replay re-executes the stub world for the witness' order and looks the real results up (cached per materialised input)
     max_decisions = 200000
+
+    def budget(self, tier):
+        return 150 if tier == "quick" else 900
 
     def shapes(self, tier):
         S = lambda **k: dict(dict(nchrom=2, use_ped=True, distrust=False), **k)
@@ -793,7 +824,7 @@ class SeedPhase(SubCheck):
             exc = None
             try:
                 phase.run_whatshap(phase_input_files=["reads.bam"], variant_file="in.vcf", output=sink, ped="ped.txt", use_ped_samples=shape["use_ped"], distrust_genotypes=sc.distrust,
-                                   read_list_filename="reads.tsv", gtchange_list_filename="gtchanges.tsv", recombination_list_filename="recomb.tsv", write_command_line_header=False)
+                                   read_list_filename="reads.tsv", gtchange_list_filename="gtchanges.tsv", recombination_list_filename="recomb.tsv", write_command_line_header=False, recombrate=sc.recombrate)
             except Exception as ex:
                 exc = "%s: %s" % (type(ex).__name__, ex)
             finally:
@@ -804,19 +835,14 @@ class SeedPhase(SubCheck):
             return res
 
         base = run(None)
-        cnt = [0]
-
-        def hook(items):
-            cnt[0] += 1
-            return [items[i] for i in e.perm("ord%d" % cnt[0], len(items))]
-
+        hook, cnt = _memo_hook(e)
         other = run(hook)
         return base, other, cnt[0], orders
 
     REAL_FILES = ("out.vcf", "reads.tsv", "recomb.tsv", "gtchanges.tsv")
 
     def real_argv(self, shape, sc, vcf_path, ped_path, bam, out):
-        argv = ["phase", "--no-reference", "--ped", ped_path, "--output-read-list", os.path.join(out, "reads.tsv"), "--recombination-list", os.path.join(out, "recomb.tsv"),
+        argv = ["phase", "--no-reference", "--recombrate", str(sc.recombrate), "--ped", ped_path, "--output-read-list", os.path.join(out, "reads.tsv"), "--recombination-list", os.path.join(out, "recomb.tsv"),
                 "--changed-genotype-list", os.path.join(out, "gtchanges.tsv"), "-o", os.path.join(out, "out.vcf")]
         if shape["use_ped"]:
             argv.append("--use-ped-samples")
